@@ -3,7 +3,7 @@ import RB.Model.Rewrite
 open Lean RB.Drv RB.Loader RB.Rewrite
 
 def excName : Exc → String
-  | .value => "value" | .index => "index" | .assertion => "assertion"
+  | .value => "value" | .index => "index" | .assertion => "assertion" | .decode => "decode"
 
 def fendName : FEnd → String
   | .uiError => "uiError" | .crash e => s!"crash:{excName e}" | .typeError => "crash:type"
